@@ -15,9 +15,9 @@ func init() {
 			"(error request => one guarded error report and no probe; otherwise exactly one Scan; probe error => one report, no result; non-nil result => exactly one Put; the loop never exits on a probe outcome); " +
 			"the start closure's WaitGroup protocol (Add before each go, Done deferred first in the worker, Wait before the deferred closes, worker count = configured count); " +
 			"the result hand-off (Put is a blocking guarded send, the copier forwards each value once, the logger performs one writer call per received result and returns only on cancel/close).",
-		NotDecided: []string{"that everything detected before completion is printed before exit (race between the exit delay and two buffered hops: timing)", "latency of probes"},
+		NotDecided:  []string{"that everything detected before completion is printed before exit (race between the exit delay and two buffered hops: timing)", "latency of probes"},
 		Assumptions: []string{"Scanner implementations return when their context is cancelled (C09/C10)", "sync.WaitGroup semantics"},
-		Run: runC08,
+		Run:         runC08,
 	})
 }
 
